@@ -58,6 +58,7 @@ def variations(lru):
 class Model(object):
     def __init__(self, default_rule, rules, write_rules=True):
         self.nodes = set()
+        self.optional = set()  # stem-prefixes named only by refused requests: may or may not be stored
         self.pages = {}  # lru -> crawled
         self.we = {}  # prefix -> gid
         self.flags = set()  # rule anchors written in the index
@@ -75,9 +76,17 @@ class Model(object):
         self.default_pattern = pattern
         self.default = re.compile(pattern, re.I)
 
-    def ins(self, lru):
+    def ins(self, lru, optional=False):
         for p in prefixes_of(lru):
+            if optional:
+                if p not in self.nodes:
+                    self.optional.add(p)
+            else:
+                self.optional.discard(p)
             self.nodes.add(p)
+
+    def required_nodes(self):
+        return self.nodes - self.optional
 
     def longest_we(self, lru):
         best = None
@@ -179,10 +188,13 @@ class Model(object):
 
     def create_webentity(self, prefixes):
         """Returns True if accepted."""
+        if any(p in self.we for p in prefixes):
+            # refused: whether the other prefixes of the list were stored on the way is not specified
+            for p in prefixes:
+                self.ins(p, optional=True)
+            return False
         for p in prefixes:
             self.ins(p)
-        if any(p in self.we for p in prefixes):
-            return False
         gid = self.next_gid
         self.next_gid += 1
         uniq = []
@@ -196,6 +208,7 @@ class Model(object):
 
     def clear(self, default_rule=None, rules=None):
         self.nodes = set()
+        self.optional = set()
         self.pages = {}
         self.we = {}
         self.flags = set()
@@ -280,15 +293,15 @@ class Model(object):
             d[t].add(s)
         return {p: len(d.get(p, ())) for p in self.pages}
 
-    def trie_blocks(self):
+    def trie_blocks(self, lrus=None):
         from .util import blocks_for_stem
 
         n = 1
-        for lru in self.nodes:
+        for lru in (self.nodes if lrus is None else lrus):
             n += blocks_for_stem(stems(lru)[-1])
         return n
 
-    def tail_blocks(self):
+    def tail_blocks(self, lrus=None):
         from .util import blocks_for_stem
 
-        return sum(blocks_for_stem(stems(lru)[-1]) - 1 for lru in self.nodes)
+        return sum(blocks_for_stem(stems(lru)[-1]) - 1 for lru in (self.nodes if lrus is None else lrus))
